@@ -247,9 +247,16 @@ func checkPB(c pbCase) *vk.Failure {
 
 func TestPB(t *testing.T) {
 	vk.Run(t, "pb", vk.Opts{Quick: 500, Thorough: 20000}, func(t *rapid.T) pbCase {
+		kds := []int{0, 1, 2, 3, 5, 8, 20, 31, 32, 33, 63, 64, 65, 66, 80, 96, 97, 120}
+		kd := kds[vk.NewSplitMix(rapid.Uint64().Draw(t, "kd")).Intn(len(kds))]
+		n := drawDim(t, "n", 80, 200)
+		if kd > 64 && n <= kd+1 && rapid.IntRange(0, 3).Draw(t, "keepSmall") != 0 {
+			// the blocked code needs kd > 64 and n > kd
+			n = kd + 2 + rapid.IntRange(0, 70).Draw(t, "nExtra")
+		}
 		return pbCase{
-			N:    drawDim(t, "n", 80, 200),
-			Kd:   rapid.SampledFrom([]int{0, 1, 2, 3, 5, 8, 20, 31, 32, 33, 63, 64, 65, 66, 80, 96, 97, 120}).Draw(t, "kd"),
+			N:    n,
+			Kd:   kd,
 			Nrhs: drawNrhs(t), PadA: vk.Pad(t, "padA"), PadB: vk.Pad(t, "padB"),
 			Upper: rapid.Bool().Draw(t, "upper"),
 			NotPD: vk.NewSplitMix(rapid.Uint64().Draw(t, "notpd")).Intn(5) == 0,
